@@ -71,9 +71,11 @@ EXT_TOKS = {"break", "continue", "do", "trans", "endtrans", "pluralize", "debug"
 # TLC
 # --------------------------------------------------------------------------
 
-def cfg(mode, maxtok=0, maxmut=0, mutset="none", maxlen=0, profile="expr", invariants=()):
+def cfg(mode, maxtok=0, maxmut=0, mutset="none", maxlen=0, profile="expr", nameset="none", pumplen=0, pumpprefix=0,
+        invariants=()):
     lines = ["CONSTANTS", f'  Mode = "{mode}"', f"  MaxTok = {maxtok}", f"  MaxMut = {maxmut}",
-             f'  MutSet = "{mutset}"', f"  MaxLen = {maxlen}", f'  Profile = "{profile}"', "SPECIFICATION Spec"]
+             f'  MutSet = "{mutset}"', f"  MaxLen = {maxlen}", f'  Profile = "{profile}"', f'  NameSet = "{nameset}"',
+             f"  PumpLen = {pumplen}", f"  PumpPrefix = {pumpprefix}", "SPECIFICATION Spec"]
     lines += [f"INVARIANT {i}" for i in invariants]
     return "\n".join(lines) + "\n"
 
@@ -85,7 +87,8 @@ RUNS = {
         ("expr", dict(mode="skeletons", profile="expr", maxtok=5, invariants=SK_INV), ()),
         ("stmt", dict(mode="skeletons", profile="stmt", maxtok=12, invariants=SK_INV), ()),
         ("forms", dict(mode="skeletons", profile="forms", maxtok=20, maxmut=1, mutset="tiny", invariants=SK_INV), ()),
-        ("strings", dict(mode="strings", maxlen=3, invariants=("C01_PlainPrefixClosed",)), ()),
+        ("scope", dict(mode="skeletons", profile="scope", maxtok=20, nameset="core", invariants=SK_INV), ()),
+        ("strings", dict(mode="strings", maxlen=3, pumplen=40, pumpprefix=2, invariants=("C01_PlainPrefixClosed",)), ()),
     ],
     "thorough": [
         ("expr", dict(mode="skeletons", profile="expr", maxtok=7, invariants=SK_INV), ()),
@@ -93,7 +96,8 @@ RUNS = {
         ("forms", dict(mode="skeletons", profile="forms", maxtok=20, maxmut=1, mutset="all", invariants=SK_INV), ()),
         ("forms2", dict(mode="skeletons", profile="forms", maxtok=20, maxmut=2, mutset="few", invariants=SK_INV),
          ("-simulate", "num=12000", "-depth", "60")),
-        ("strings", dict(mode="strings", maxlen=4, invariants=("C01_PlainPrefixClosed",)), ()),
+        ("scope", dict(mode="skeletons", profile="scope", maxtok=24, nameset="all", invariants=SK_INV), ()),
+        ("strings", dict(mode="strings", maxlen=4, pumplen=40, pumpprefix=2, invariants=("C01_PlainPrefixClosed",)), ()),
     ],
 }
 
